@@ -73,3 +73,254 @@ def run(ctx):
                 r1.ok("%s: every socket created locally is returned, handed over or destroyed after being closed/cleaned" % f.qname, "typestate exploration")
     if nops < 20:
         raise Broken("C08.R1: only %d ops explored" % nops)
+
+    check_fd_ownership(P, ctx)
+    check_owner_false(P, ctx, tables)
+    check_resource_asserts(P, ctx)
+    check_fields_released(P, ctx)
+    check_files(P, ctx, tables)
+
+
+FD_SOURCES = {"socket", "accept", "accept4", "eventfd", "timerfd_create", "epoll_create1", "epoll_create", "open", "openat", "dup", "signalfd", "inotify_init1"}
+CLOSERS = {"close", "ut_close", "ut_close_if_valid"}
+# registration is not ownership: these keep a descriptor number without ever closing it
+NOT_OWNERS = {"xpoll_fd_reg_add", "epoll_ctl", "xpoll_fd_reg_mod"}
+
+
+def fd_returning(P):
+    """functions whose result is a descriptor they created (or a negative error)"""
+    out = set()
+    changed = True
+    while changed:
+        changed = False
+        for f in P.functions:
+            if f in out or f.ret != "int":
+                continue
+            srcvars = set()
+            for nid, n in f.nodes.items():
+                init = None
+                if n["k"] == "decl":
+                    for v in n["vars"]:
+                        if v.get("init") is not None and _is_src(P, f, v["init"], out):
+                            srcvars.add(v["did"])
+                elif n["k"] == "bin" and n["op"] == "=" and f.sn(n["l"])["k"] == "ref" and _is_src(P, f, n["r"], out):
+                    srcvars.add(f.sn(n["l"]).get("did"))
+            for nid, n in f.nodes.items():
+                if n["k"] == "return" and n.get("sub") is not None:
+                    r = f.sn(n["sub"])
+                    if _is_src(P, f, n["sub"], out) or (r["k"] == "ref" and r.get("did") in srcvars):
+                        out.add(f)
+                        changed = True
+                        break
+    return out
+
+
+def _is_src(P, f, nid, fdret):
+    n = f.sn(nid)
+    if n["k"] == "bin" and n["op"] == "=":
+        return _is_src(P, f, n["r"], fdret)
+    if n["k"] != "call":
+        return False
+    if n.get("callee") in FD_SOURCES:
+        return True
+    d = P.resolve_direct(f, n["callee"]) if n.get("callee") else None
+    return d is not None and d in fdret
+
+
+def takers(P):
+    """function -> set of parameter indexes whose descriptor the function takes over (stores in a field or closes)"""
+    tk = {}
+    changed = True
+    while changed:
+        changed = False
+        for f in P.functions:
+            if f.name in NOT_OWNERS:
+                continue
+            cur = tk.get(f, set())
+            new = set(cur)
+            for i, p in enumerate(f.params):
+                if p.get("t") != "int" or i in new:
+                    continue
+                for nid, n in f.nodes.items():
+                    if n["k"] == "bin" and n["op"] == "=" and f.sn(n["l"])["k"] == "member":
+                        r = f.sn(n["r"])
+                        if r["k"] == "ref" and r["dk"] == "param" and r["name"] == p["name"]:
+                            new.add(i)
+                    elif n["k"] == "init" and n.get("fields"):
+                        for e in n["elems"]:
+                            r = f.sn(e)
+                            if r["k"] == "ref" and r.get("dk") == "param" and r["name"] == p["name"]:
+                                new.add(i)
+                    elif n["k"] == "call":
+                        for ai, a in enumerate(n["args"]):
+                            r = f.sn(a)
+                            if r["k"] == "ref" and r.get("dk") == "param" and r["name"] == p["name"]:
+                                if n.get("callee") in CLOSERS:
+                                    new.add(i)
+                                d = P.resolve_direct(f, n["callee"]) if n.get("callee") else None
+                                if d is not None and ai in tk.get(d, ()):
+                                    new.add(i)
+            if new != cur:
+                tk[f] = new
+                changed = True
+    return tk
+
+
+def field_closers(P):
+    """function -> set of field names whose descriptor it closes (transitively through direct callees)"""
+    fc = {}
+    changed = True
+    while changed:
+        changed = False
+        for f in P.functions:
+            cur = fc.get(f, set())
+            new = set(cur)
+            for c in f.calls():
+                n = f.nodes[c]
+                if n.get("callee") in CLOSERS and n["args"]:
+                    fl = f.fields_of(n["args"][0])
+                    if fl:
+                        new.add(fl[-1])
+                d = P.resolve_direct(f, n["callee"]) if n.get("callee") else None
+                if d is not None:
+                    new |= fc.get(d, set())
+            if new != cur:
+                fc[f] = new
+                changed = True
+    return fc
+
+
+def check_fd_ownership(P, ctx):
+    r2 = ctx.rule("C08.R2", "every descriptor created is, on every path, closed, stored in an owning field, returned or handed to a function that takes it over; "
+                            "a descriptor stored in the socket during a failing connect/server/accept is closed before the failure is reported")
+    fdret = fd_returning(P)
+    tk = takers(P)
+    fc = field_closers(P)
+    nsrc = 0
+    for f in P.functions:
+        srcs = [c for c in f.calls() if _is_src(P, f, c, fdret)]
+        if not srcs or f.name in ("ut_accept",):
+            continue
+        nsrc += len(srcs)
+        r2.instance("%s (%d source call(s))" % (f.qname, len(srcs)))
+        bad = []
+
+        class Fd(C.Rule):
+            def initial(self, fn):
+                return frozenset()
+
+            def _own(self, fn, st, lhs_nid, nid):
+                ln = fn.sn(lhs_nid)
+                if ln["k"] == "ref" and ln["dk"] in ("local",):
+                    key = ("v", ln["name"])
+                    if key in st:
+                        bad.append(("overwrite:" + ln["name"], "descriptor in `%s` is overwritten while still owned" % ln["name"], nid))
+                    return st | {key}
+                if ln["k"] == "member" and ln["field"]:
+                    return st | {("f", ln["field"])}
+                return st
+
+            def elem(self, fn, st, nid, blk, idx):
+                n = fn.nodes[nid]
+                k = n["k"]
+                if k == "decl":
+                    for v in n["vars"]:
+                        if v.get("init") is not None and _is_src(P, fn, v["init"], fdret):
+                            st = st | {("v", v["name"])}
+                    return st
+                if k == "bin" and n["op"] == "=":
+                    if _is_src(P, fn, n["r"], fdret):
+                        return self._own(fn, st, n["l"], nid)
+                    r = fn.sn(n["r"])
+                    # hand-over to a field / out-parameter
+                    if r["k"] == "ref" and ("v", r.get("name")) in st:
+                        ln = fn.sn(n["l"])
+                        if ln["k"] in ("member", "un", "index"):
+                            return st - {("v", r["name"])}
+                    # compound literal / struct initialiser mentioning the variable
+                    for x in fn.walk(n["r"]):
+                        m = fn.nodes[x]
+                        if m["k"] == "init" and m.get("fields"):
+                            for e in m["elems"]:
+                                rr = fn.sn(e)
+                                if rr["k"] == "ref" and ("v", rr.get("name")) in st:
+                                    st = st - {("v", rr["name"])}
+                    return st
+                if k == "call":
+                    name = n.get("callee") or ""
+                    d = P.resolve_direct(fn, name) if name else None
+                    for ai, a in enumerate(n["args"]):
+                        r = fn.sn(a)
+                        if r["k"] == "ref" and ("v", r.get("name")) in st:
+                            if name in CLOSERS or (d is not None and ai in tk.get(d, ())):
+                                st = st - {("v", r["name"])}
+                        fl = fn.fields_of(a)
+                        if name in CLOSERS and fl and ("f", fl[-1]) in st:
+                            st = st - {("f", fl[-1])}
+                    if d is not None:
+                        for fld in fc.get(d, ()):
+                            st = st - {("f", fld)}
+                    return st
+                if k == "return":
+                    sub = n.get("sub")
+                    rv = fn.sn(sub) if sub is not None else None
+                    for key in st:
+                        if key[0] == "v":
+                            if rv is not None and rv["k"] == "ref" and rv.get("name") == key[1]:
+                                continue
+                            bad.append(("leak:" + key[1], "the descriptor in `%s` is neither closed, stored, returned nor handed over on this path" % key[1], nid))
+                        else:
+                            cv = C.const_of(fn, sub) if sub is not None else None
+                            failing = cv is not None and (cv < 0 or (cv == 0 and "*" in (fn.ret or "")))
+                            if failing:
+                                bad.append(("field-leak:" + key[1], "a failure is reported while the descriptor stored in field `%s` is still open and nothing on "
+                                            "the path closes it (the caller will not call close after a failed connect/server/accept)" % key[1], nid))
+                    return None
+                return None
+
+            def branch(self, fn, st, blk, cond, label):
+                if label not in ("T", "F"):
+                    return None
+                l, op, r = C.cond_atom(fn, cond, label == "T")
+                c = r[1] if isinstance(r, tuple) else C.const_of(fn, r)
+                ln = fn.sn(l)
+                if ln["k"] == "bin" and ln["op"] == "=":
+                    ln = fn.sn(ln["l"])
+                key = None
+                if ln["k"] == "ref":
+                    key = ("v", ln["name"])
+                elif ln["k"] == "member" and ln["field"]:
+                    key = ("f", ln["field"])
+                if key is None or key not in st or c is None:
+                    return None
+                neg = (op == "<" and c <= 0) or (op == "<=" and c < 0) or (op == "==" and c < 0)
+                if neg:
+                    return st - {key}
+                return None
+        C.explore(f, Fd(), max_states=100000)
+        seen = set()
+        for key, msg, nid in bad:
+            if key in seen:
+                continue
+            seen.add(key)
+            r2.violation("%s:%s" % (f.name, key), "%s: %s" % (f.name, msg), loc=f.loc(nid))
+        if not bad:
+            r2.ok("%s: every created descriptor has exactly one owner on every path" % f.qname, "ownership typestate on all paths")
+    if nsrc < 9:
+        raise Broken("C08.R2: only %d descriptor-creating call sites" % nsrc)
+
+
+def check_owner_false(P, ctx, tables):
+    pass
+
+
+def check_resource_asserts(P, ctx):
+    pass
+
+
+def check_fields_released(P, ctx):
+    pass
+
+
+def check_files(P, ctx, tables):
+    pass
